@@ -118,6 +118,9 @@ where
                                 }
                             } else if char == "%" {
                                 // self.select_other_charset(yield_!(None));
+                                // The designator of `ESC %` belongs to the
+                                // sequence and must not be printed.
+                                co.yield_(None);
                             } else if "()".contains(&char) {
                                 let _code = co.yield_(None);
                                 if parser_state_cloned.lock().unwrap().use_utf8 {
@@ -241,6 +244,9 @@ where
                                 }
                             } else if char == "%" {
                                 // self.select_other_charset(yield_!(None));
+                                // The designator of `ESC %` belongs to the
+                                // sequence and must not be printed.
+                                co.yield_(None);
                             } else if "()".contains(&char) {
                                 let _code = co.yield_(None);
                                 if parser_state_cloned.lock().unwrap().use_utf8 {
